@@ -5,6 +5,12 @@ open Node
 theorem inert_voidZero : Inert voidZero := by
   intro σ; simp [voidZero, erase]
 
+theorem noBlk_voidZero : noBlk voidZero = true := by
+  unfold voidZero
+  rw [noBlk_eq]
+  simp only [isBlockNode, kids, noBlkL_cons, noBlkL_nil, noBlk_lit (e := Node.lit "NumericLiteral" "{\"value\":0.0,\"raw\":null}" "" Span.dummy) rfl]
+  rfl
+
 theorem replaceElem_Er (cx : Cx) (lo hi : Nat) (a' a : Node) (mode : IdentMode) (asg args : List Node) (sp : Span)
     (s : St) (hw : HypW cx hi s) (hE : Er cx lo hi a' a) :
     OpEr cx lo hi a asg args (replaceElem a' mode asg args sp s) s := by
@@ -18,7 +24,9 @@ theorem replaceElem_Er (cx : Cx) (lo hi : Nat) (a' a : Node) (mode : IdentMode) 
       intro x hx
       simp only [List.mem_singleton] at hx
       subst hx
-      exact inert_arg inert_voidZero)
+      exact inert_arg inert_voidZero) (by
+      simp only [noBlkL_cons, noBlkL_nil, Bool.and_true]
+      exact noBlk_arg noBlk_voidZero)
 
 theorem replaceElems_Er (cx : Cx) (lo hi : Nat) (mode : IdentMode) (sp : Span) :
     ∀ (xs' xs asg args : List Node) (s : St), HypW cx hi s → Forall2 (Er cx lo hi) xs' xs →
@@ -40,7 +48,7 @@ theorem replaceElems_Er (cx : Cx) (lo hi : Nat) (mode : IdentMode) (sp : Span) :
       have h1 := replaceElem_Er cx lo hi x' x mode asg args sp s hw hf.1
       generalize replaceElem x' mode asg args sp s = R1 at h1
       obtain ⟨⟨y, asg1, args1⟩, s1⟩ := R1
-      have c1 : s.counter ≤ s1.counter := by obtain ⟨_, _, _, _, _, _, c, _⟩ := h1; exact c
+      have c1 : s.counter ≤ s1.counter := by obtain ⟨_, _, _, _, _, _, _, c, _⟩ := h1; exact c
       have h2 := ih xs asg1 args1 s1 (hw.mono c1) hf.2
       generalize replaceElems mode sp xs' asg1 args1 s1 = R2 at h2
       obtain ⟨⟨ys, asg2, args2⟩, s2⟩ := R2
@@ -64,7 +72,7 @@ theorem replaceExpr_Er (cx : Cx) (lo hi : Nat) (e' e : Node) (mode : IdentMode) 
     obtain ⟨es, he, hnd, hf⟩ := hD elems asp rfl
     -- the source is that array
     have hearr : e = .array es asp := by
-      obtain ⟨X, Δ, eX, sX, _⟩ := hE cx.base cx.ext_base
+      obtain ⟨X, Δ, eX, sX, _⟩ := hE _ (BRg.refl _) cx.base cx.ext_base
       rw [eraseL_array] at eX
       have hX : X = .array (eraseL cx.base elems).1 asp := by
         have := congrArg Prod.fst eX; simpa using this.symm
@@ -77,11 +85,13 @@ theorem replaceExpr_Er (cx : Cx) (lo hi : Nat) (e' e : Node) (mode : IdentMode) 
     have h := replaceElems_Er cx lo hi mode sp elems es asg args s hw hf
     generalize replaceElems mode sp elems asg args s = R at h
     obtain ⟨⟨ys, asg1, args1⟩, s1⟩ := R
-    obtain ⟨new1, more1, ea1, eg1, ta1, in1, c1, A1, B1⟩ := h
-    refine ⟨new1, more1, ea1, eg1, ta1, in1, c1, A1, ?_⟩
-    intro σ Δ2 hσ hav hac
-    obtain ⟨Xs, Δ3, eX, sX, wX⟩ := B1 σ Δ2 hσ hav hac
-    dsimp only at eX ⊢
+    obtain ⟨new1, more1, ea1, eg1, ta1, in1, nb1, c1, A1, B1⟩ := h
+    refine ⟨new1, more1, ea1, eg1, ta1, in1, nb1, c1, A1, ?_⟩
+    intro new'' x'' hn hx σ Δ2 hσ hav hac
+    dsimp only at hx
+    obtain ⟨ys'', rfl, hys⟩ := hx.array_inv
+    obtain ⟨Xs, Δ3, eX, sX, wX⟩ := B1 new'' ys'' hn hys σ Δ2 hσ hav hac
+    try dsimp only at eX ⊢
     refine ⟨.array Xs asp, Δ3, by rw [eraseL_array, eX], ?_, wX⟩
     refine ⟨?_, Or.inl rfl, ?_⟩
     · simp only [strip]; rw [show stripL Xs = stripL es from sX]
@@ -114,7 +124,7 @@ theorem replaceArg_Er (cx : Cx) (lo hi : Nat) (a' a : Node) (mode : IdentMode) (
     exact opEr_arg_wrap spread s2 hs this
   | _ =>
     simp only [replaceArg, run_pure]
-    have := opEr_inplace cx lo hi _ a asg args [] s hE InertL.nil
+    have := opEr_inplace cx lo hi _ a asg args [] s hE InertL.nil rfl
     simpa using this
 
 theorem replaceArgs_Er (cx : Cx) (lo hi : Nat) (mode : IdentMode) (sp : Span) (expand : Bool) :
@@ -138,7 +148,7 @@ theorem replaceArgs_Er (cx : Cx) (lo hi : Nat) (mode : IdentMode) (sp : Span) (e
       have h1 := replaceArg_Er cx lo hi x' x mode asg args sp expand s hw hf.1.1 hf.1.2
       generalize replaceArg x' mode asg args sp expand s = R1 at h1
       obtain ⟨⟨y, asg1, args1⟩, s1⟩ := R1
-      have c1 : s.counter ≤ s1.counter := by obtain ⟨_, _, _, _, _, _, c, _⟩ := h1; exact c
+      have c1 : s.counter ≤ s1.counter := by obtain ⟨_, _, _, _, _, _, _, c, _⟩ := h1; exact c
       have h2 := ih xs asg1 args1 s1 (hw.mono c1) hf.2
       generalize replaceArgs mode sp expand xs' asg1 args1 s1 = R2 at h2
       obtain ⟨⟨ys, asg2, args2⟩, s2⟩ := R2
@@ -153,10 +163,13 @@ theorem tplOperand_Er {cx : Cx} {lo hi : Nat} {x' x : Node} (h : Er cx lo hi x' 
   unfold tplOperand
   split
   · rename_i es sp
-    intro σ hσ
-    obtain ⟨X, Δ, eX, sX, wX⟩ := h σ hσ
+    intro e'' hb σ hσ
+    obtain ⟨i'', rfl, hi⟩ := hb.paren_inv
+    obtain ⟨X, Δ, eX, sX, wX⟩ := h i'' hi σ hσ
     refine ⟨X, Δ, ?_, sX, wX⟩
-    simp only [erase, Node.span, span_beq_refl', if_true] at eX ⊢
+    have hsp : (i''.span == (Node.seq es sp).span) = true := by
+      rw [BRg.span _ _ hi]; exact span_beq_refl' _
+    simp only [erase, hsp, if_true]
     exact eX
   · exact h
 
@@ -184,7 +197,7 @@ theorem replaceTplExprs_Er (cx : Cx) (lo hi : Nat) :
       rw [hre]
       generalize replaceExprNoExpand (tplOperand x') .replace asg args x'.span .expr s = R1 at h1
       obtain ⟨⟨y, asg1, args1⟩, s1⟩ := R1
-      have c1 : s.counter ≤ s1.counter := by obtain ⟨_, _, _, _, _, _, c, _⟩ := h1; exact c
+      have c1 : s.counter ≤ s1.counter := by obtain ⟨_, _, _, _, _, _, _, c, _⟩ := h1; exact c
       have h2 := ih xs asg1 args1 s1 (hw.mono c1) hf.2
       generalize replaceTplExprs xs' asg1 args1 s1 = R2 at h2
       obtain ⟨⟨ys, asg2, args2⟩, s2⟩ := R2
